@@ -5,7 +5,7 @@ from concurrent.futures import ThreadPoolExecutor
 import common, orch_env, orch_e2e
 
 PID = 'C04'
-TRANSLATORS = []
+TRANSLATORS = ['t_orch']      # util.sh robsd() / step_exec_job / trap_exit / lock_* and canvas -> gen/Gen_Orch.v
 TRUSTED = orch_env.SHIMS_USED + [
     'ASSUMED: the contract of robsd-wait (returns when one / all of the given pids are gone, prints those still running); the shell\'s &, $!, set -e and pipeline semantics are bash\'s; '
     'only the bookkeeping of the loop is proved',
@@ -41,6 +41,21 @@ def evaluate(ctx, cases, res, want_account):
             mstatus = final['eff'][0]
             if final['rows'] != irows or (ob['rc'] != int(mstatus) and not case['detached']):
                 res.disagreements.append({'case': case, 'why': 'final records / status', 'model': [final['rows'], mstatus], 'impl': [irows, ob['rc']]})
+            # the hook calls in order: one per finished step (the harness fixes the completion order), then the end
+            # hook of the exit trap exactly when the model's trap_exit says so
+            mh = [(bytes.fromhex(h.split(':')[0]).decode('latin1') if h.split(':')[0] != '-' else '', h.split(':')[1]) for h in final['hooks']]
+            if final['eff'][2] == '1':
+                mh.append(('end', '0'))
+            ih = [tuple(h.split()[1:3]) for h in ob.get('hooks', [])]
+            if want_account and mh != ih:
+                res.disagreements.append({'case': case, 'why': 'hook calls', 'model': mh, 'impl': ih})
+            # a failing PARALLEL step alone: end reached, exit status 0, a report (C11_parallel_failure_alone_exits_zero)
+            codes = {s['name']: s['exit'] for s in case['steps']}
+            started = [t[1] for t in ob.get('trace', []) if t[0] == 'start']
+            if final['mode'] == 'done' and any(codes[n] != 0 for n in started):
+                res.count('parallel-failure-exit: end reached with a failed parallel step')
+                if not case['detached'] and (ob['rc'] != 0 or (want_account and not ob.get('report'))):
+                    res.disagreements.append({'case': case, 'why': 'parallel-only failure: the model says exit 0 and a report', 'impl': [ob['rc'], ob.get('report')]})
         # ---- oracle on what really happened (C04): order of starts and ends, exit status, end recorded
         tr = ob.get('trace', [])
         toks = ['oktrace', str(case['ncpu']), str(ob['rc'] if not case['detached'] else (0 if any(r['name'] == 'end' for r in rows) else 1)),
